@@ -2313,6 +2313,8 @@ class ArrayWriter:
         nall = len(allnames)
 
         nlines = keys.get("nlines", arr.size)
+        if nlines is None or nlines > arr.size:
+            nlines = arr.size
         if "fields" in keys:
             names_in = keys["fields"]
         elif "columns" in keys:
@@ -2503,6 +2505,8 @@ class ArrayWriter:
             )
 
         nlines = keys.get("nlines", array.size)
+        if nlines is None or nlines > array.size:
+            nlines = array.size
 
         max_lens = {}
         for name in fields:
